@@ -7,7 +7,7 @@
    (hypotheses about the gaps of the axis being refined only), one level at a time; their premises are oracle-checked. *)
 From Coq Require Import ZArith QArith Qabs Qround Qreals List Reals.
 From RV Require Import Base.QB Model.Grid Model.GridGeom Proofs.C13_Grid Proofs.C13_GridGeom Proofs.C13_GridGeomR Proofs.C13_ProbStep.
-From RV Require Import Proofs.Tie_PyLoops Gen.GenTieChain Proofs.Tie_Chain Model.ProbStepLoop Proofs.C13_ProbStepLoop Proofs.C13_ProbStepTie.
+From RV Require Import Proofs.Tie_PyLoops Gen.GenTieChain Proofs.Tie_Chain Model.ProbStepLoop Proofs.C13_ProbStepLoop Proofs.C13_ProbStepTie Proofs.C13_ProbStepGuard.
 Import ListNotations.
 Open Scope Q_scope.
 
@@ -258,7 +258,7 @@ Proof. exact geometric_R_rejects_example. Qed.
    applied twice per step (F (root (root x (p/2)) (p/2)) - F x = p follows from root_spec alone in four lines) plus an induction over
    the n steps and strictness; it says what the specification of brentq + quadrature would give, it does not say that the code meets
    that specification.  The loop's exit test, bare except, extrapolated states and last_point are NOT in these two statements; they are
-   in the loop model (C13_probstep_right_shape / _left_shape below), and C13_probstep_loop_regular_is_ps_axis links the two models.
+   in the loop model (C13_probstep_right_shape_spec / _left_shape_spec below), and C13_probstep_loop_regular_is_ps_axis links the two models.
    CTMCGridProbabilityStep, right half axis while the tail is not exhausted, under the SPECIFICATION of the root finder
    (F = cumulative jump probability, strictly increasing; M = the probability available on this side; root x p = the point with
    F(root x p) - F x = p, REQUIRED ONLY WHILE F x + p <= M -- a real jump law is bounded; neither brentq nor the quadrature is
@@ -309,9 +309,15 @@ Proof. exact gen_middle_refine_n. Qed.
 
 (* The two `while True` loops of compute_right_axis / compute_left_axis with EVERY branch (exhaustion exit with its extrapolated last
    point, regular try branch, bare-except branch incl. "first root found, second raised"), Model/ProbStepLoop.v.  The quadrature test
-   `exhausted` and the root finder `root` (None = raised) are ARBITRARY functions; the only thing asked of the root finder is that a
-   returned root lies strictly beyond the bracket end it started from.  Whenever the loop terminates (fuel: `while True`), the half
-   axis is strictly increasing, starts at h (ends at -h), has at least 2 states, all on its side of the origin. *)
+   `exhausted` and the root finder `root` (None = raised) are functions the theorems quantify over, under ONE HYPOTHESIS that is NOT
+   discharged for brentq:  ROOT BEYOND THE BRACKET END -- a returned root lies strictly beyond the bracket end the search started
+   from (forall x y, root x = Some y -> x < y; left: y < x).  It is monitored on every run of the correspondence, and it is FALSE for
+   minimum_probability_step = 0 (f(a) = 0: brentq returns its end a), one of the inputs for which the constructor before e5add93
+   never returned (F-C13-9, below).  Whenever the loop terminates (fuel: `while True`; termination is NOT proved), the half axis is
+   strictly increasing, starts at h (ends at -h), has at least 2 states, all on its side of the origin.
+   The bare `except` is the loop's NORMAL exit path, not an error path: after a regular step the exit test reads
+   p_left(middle) = tail(start_right_old) - p/2 >= p/2, so it cannot fire directly after a successful `try`; every run with a regular
+   step leaves through a raising root search (no sign change on [x, 100]), at least one extrapolated state, then the exit test. *)
 Theorem C13_probstep_right_loop : forall (exhausted : Q -> bool) (root : Q -> option Q),
   (forall x y, root x = Some y -> x < y) ->
   forall fuel h axis, 0 < h -> compute_right_axis exhausted root fuel h = Some axis ->
@@ -338,7 +344,13 @@ Example C13_probstep_loop_nonvacuous :
   /\ compute_right_axis (lin_exh_r 2 (1 # 4) (1 # 8)) (lin_root_r (15 # 32) 2) 2 (1 # 4) = None.
 Proof. exact probstep_loop_example. Qed.
 
-(* What the gaps carry, with the exhaustion and except branches INSIDE the statement.  F = cumulative jump probability read from the
+(* STRUCTURE UNDER THE ROOT SPECIFICATION (wave 8, audit 5b B4: relabelled `_spec` like C13_probstep_gaps_spec).  What is NEW in these
+   two statements is the STRUCTURE of the loop's output with the exhaustion and except branches inside: regular states, then k >= 1
+   extrapolated states of one constant spacing 2d.  Their PROBABILITY content -- "a regular gap carries 2q" -- is the root finder's
+   specification F(root x) - F x == q applied twice (hypothesis 2), nothing more: it says what the specification of brentq + quadrature
+   would give, not that the code meets it; `exhausted` is linked to neither F nor q, and the statement also holds with F := 0, q := 0.
+   The three hypotheses (root beyond the bracket end; root specification; refusals monotone) are discharged for the constant-density
+   oracles of the Example only.  F = cumulative jump probability read from the
    side's first cell boundary (any function), q = p/2.  Specification of the root finder: a returned root y of `root x` lies beyond x
    and F y - F x == q; a refusal is monotone (no root from x on the bracket [x, 100] => none from further out).  Then the half axis is
      h, reg_1, ..., reg_n, ext_1, ..., ext_k      (k >= 1)
@@ -346,14 +358,14 @@ Proof. exact probstep_loop_example. Qed.
    and the extrapolated states ext_j continue the axis with one constant spacing 2*d, d > 0.  n = 0 is possible (tail already
    exhausted at h).  Left twin: the same read from -h leftwards (the code's left loop is not the mirror image of the right loop in the
    except branch -- different d -- the statement is the same). *)
-Theorem C13_probstep_right_shape : forall (exhausted : Q -> bool) (root : Q -> option Q) (F : Q -> Q) (q : Q),
+Theorem C13_probstep_right_shape_spec : forall (exhausted : Q -> bool) (root : Q -> option Q) (F : Q -> Q) (q : Q),
   (forall x y, root x = Some y -> x < y) -> (forall x y, root x = Some y -> F y - F x == q) ->
   (forall x x', root x = None -> x <= x' -> root x' = None) ->
   forall fuel h axis, 0 < h -> compute_right_axis exhausted root fuel h = Some axis ->
   exists reg ext d, axis = (h :: reg) ++ ext /\ gaps_F F (2 * q) (h :: reg) /\ ext <> [] /\ 0 < d
                     /\ gaps_w (2 * d) (lastq (h :: reg) :: ext).
 Proof. exact right_axis_shape. Qed.
-Theorem C13_probstep_left_shape : forall (exhausted : Q -> bool) (root : Q -> option Q) (F : Q -> Q) (q : Q),
+Theorem C13_probstep_left_shape_spec : forall (exhausted : Q -> bool) (root : Q -> option Q) (F : Q -> Q) (q : Q),
   (forall x y, root x = Some y -> y < x) -> (forall x y, root x = Some y -> F y - F x == q) ->
   (forall x x', root x = None -> x' <= x -> root x' = None) ->
   forall fuel h axis, 0 < h -> compute_left_axis exhausted root fuel h = Some axis ->
@@ -389,6 +401,43 @@ Example C13_probstep_tie_nonvacuous :
   (forall x y, lin_root_r (15 # 32) 2 x = Some y -> (fun a q => a + q * (15 / 4))%R (Q2R x) ((1 / 4) / 2)%R = Q2R y)
   /\ ps_axis (fun a q => a + q * (15 / 4))%R (Q2R (1 # 4)) (1 / 4) 1 = [Q2R (1 # 4); (Q2R (1 # 4) + 1 / 4 / 2 * (15 / 4) + 1 / 4 / 2 * (15 / 4))%R].
 Proof. exact ps_tie_example. Qed.
+
+(* ================================================================================================ wave 8 (audit 5b, D4 / D5)
+   Two argument defects of CTMCGridProbabilityStep, repaired in /repo by branch fix-w8-c13; the loop model is the repaired code.
+   F-C13-9 (e5add93: `if not minimum_probability_step > 0: raise ValueError` in both compute_*_axis).  The exhaustion test with the
+   quadrature as a function: exh_of pleft p m = (pleft m < p/2).  BEFORE the repair: for p <= 0 (pleft >= 0: a probability) the test
+   never fires and neither loop returns, for ANY root finder, any h and every number of iterations. *)
+Theorem C13_probstep_nonpositive_p_never_returns_before_repair : forall (pleft : Q -> Q) (p : Q) (root : Q -> option Q),
+  (forall m, 0 <= pleft m) -> p <= 0 ->
+  forall fuel h, compute_right_axis (exh_of pleft p) root fuel h = None /\ compute_left_axis (exh_of pleft p) root fuel h = None.
+Proof. exact nonpositive_p_never_returns. Qed.
+(* the REPAIRED constructor (probstep_ctor = guard + probstep_axis): 0 < p is a CONCLUSION of `returns`; p <= 0 is refused.  Hypotheses:
+   root beyond the bracket end, as above; termination not proved (None = raised or out of fuel) *)
+Theorem C13_probstep_ctor_guarded : forall p pl pr rootl rootr fuel h xs o,
+  (forall x y, rootl x = Some y -> y < x) -> (forall x y, rootr x = Some y -> x < y) -> 0 < h ->
+  probstep_ctor p pl pr rootl rootr fuel h = Some (xs, o) ->
+  0 < p /\ admissible xs o h /\ (2 <= o)%nat /\ (o + 3 <= length xs)%nat.
+Proof. exact probstep_ctor_admissible. Qed.
+Theorem C13_probstep_ctor_rejects : forall p pl pr rootl rootr fuel h, p <= 0 -> probstep_ctor p pl pr rootl rootr fuel h = None.
+Proof. exact probstep_ctor_rejects. Qed.
+Example C13_probstep_ctor_guard_nonvacuous :
+  option_map (fun r => (map Qred (fst r), snd r))
+    (probstep_ctor (1 # 4) (lin_pleft_l 2 (1 # 4)) (lin_pleft_r 2 (1 # 4)) (lin_root_l (15 # 32) 2) (lin_root_r (15 # 32) 2) 50 (1 # 4))
+  = Some ([-(109 # 16); -(4 # 1); -(19 # 16); -(1 # 4); 0; 1 # 4; 19 # 16; 17 # 8; 49 # 16], 4%nat)
+  /\ probstep_ctor (-(1 # 4)) (lin_pleft_l 2 (1 # 4)) (lin_pleft_r 2 (1 # 4)) (lin_root_l (15 # 32) 2) (lin_root_r (15 # 32) 2) 50 (1 # 4) = None
+  /\ probstep_ctor 0 (lin_pleft_l 2 (1 # 4)) (lin_pleft_r 2 (1 # 4)) (lin_root_l (15 # 32) 2) (lin_root_r (15 # 32) 2) 50 (1 # 4) = None
+  /\ (forall m, 0 <= lin_pleft_r 2 (1 # 4) m).
+Proof. exact ctor_guard_example. Qed.
+(* F-C13-8 (6825494: the half axes are float arrays).  BEFORE the repair an int h made left_axis an int64 array and np.insert truncated
+   every state towards zero (compute_left_axis_int_h = map trunc0 of the float axis).  Witness = the axis /repo b517e80 returned for
+   CTMCGridProbabilityStep(h=1, StepModel(StepMeasure([-2,2],[3])), 0.25): float h [-13/4; -5/2; -7/4; -1], int h [-3; -2; -1; -1]:
+   -1 twice, not strictly increasing, although the root finder satisfies the hypothesis of C13_probstep_left_loop *)
+Example C13_probstep_int_h_before_repair :
+  option_map (map Qred) (compute_left_axis (lin_exh_l 2 1 (1 # 8)) (lin_root_l (3 # 8) 2) 50 1) = Some [-(13 # 4); -(5 # 2); -(7 # 4); -(1 # 1)]
+  /\ option_map (map Qred) (compute_left_axis_int_h (lin_exh_l 2 1 (1 # 8)) (lin_root_l (3 # 8) 2) 50 1) = Some [-(3 # 1); -(2 # 1); -(1 # 1); -(1 # 1)]
+  /\ option_map incrb (compute_left_axis_int_h (lin_exh_l 2 1 (1 # 8)) (lin_root_l (3 # 8) 2) 50 1) = Some false
+  /\ (forall x y, lin_root_l (3 # 8) 2 x = Some y -> y < x).
+Proof. exact int_h_example. Qed.
 
 Print Assumptions C13_assembly_admissible.
 Print Assumptions C13_fixed_admissible.
@@ -435,8 +484,13 @@ Print Assumptions C13_probstep_right_loop.
 Print Assumptions C13_probstep_left_loop.
 Print Assumptions C13_probstep_ctor_admissible.
 Print Assumptions C13_probstep_loop_nonvacuous.
-Print Assumptions C13_probstep_right_shape.
-Print Assumptions C13_probstep_left_shape.
+Print Assumptions C13_probstep_right_shape_spec.
+Print Assumptions C13_probstep_left_shape_spec.
 Print Assumptions C13_probstep_shape_nonvacuous.
 Print Assumptions C13_probstep_loop_regular_is_ps_axis.
 Print Assumptions C13_probstep_tie_nonvacuous.
+Print Assumptions C13_probstep_nonpositive_p_never_returns_before_repair.
+Print Assumptions C13_probstep_ctor_guarded.
+Print Assumptions C13_probstep_ctor_rejects.
+Print Assumptions C13_probstep_ctor_guard_nonvacuous.
+Print Assumptions C13_probstep_int_h_before_repair.
